@@ -12,6 +12,7 @@ from ..harness import violation
 from ..spaces import chunks
 
 PID = 'C20'
+MAX_TASKS_PER_CHILD = 6     # a small per-widget leak remains in ipywidgets/anywidget: workers are replaced regularly
 LEVEL = 'model_checking'
 RULE = ('scene = tuple of leaves from a menu {colour int, string, multivector in 5 layouts x 3 backings, array-valued (n,2) and (n,2,2), nullary callable '
         'returning a multivector that depends on another one, callable returning a list} plus nesting wrappers (list, tuple, root callable); all scenes up to '
@@ -23,7 +24,7 @@ ASSUMPTIONS = ['ganja Elements list coefficients in kingdon\'s canonical blade o
                'kverif.frontend ports toElement/decode/encode of graph.js literally; rendering itself (ganja.js) is out of scope']
 BOUNDS = {'quick': 'Algebra(2,0,1), Algebra(3,0,1), Algebra(2), Algebra(3); scenes with 1 leaf from the full 29-leaf menu, 2 leaves (full menu x 9-leaf sub-menu, both orders) and 3 leaves from the sub-menu, 4 nesting wrappers; '
                    'drag BFS depth 2 (depth 3 for single-leaf scenes)',
-          'thorough': 'adds Algebra(1), Algebra(4), Algebra(1,1,1), Algebra(4,0,1)*; scenes with <=3 leaves from the full menu, 4 leaves from the sub-menu; drag BFS depth 3'}
+          'thorough': 'adds Algebra(4), Algebra(1,1,1); scenes with <=2 leaves from the full menu, 3 leaves from a 14-leaf menu, 4 leaves from a 6-leaf menu; drag BFS depth 3 / 2 / 1 for <=2 / 3 / 4 leaves'}
 
 ALGS = {'pga2': (2, 0, 1), 'pga3': (3, 0, 1), 'vga2': (2, 0, 0), 'vga3': (3, 0, 0), 'vga1': (1, 0, 0), 'vga4': (4, 0, 0), 'mix3': (1, 1, 1),
         # explicit signature orderings that share (p, q, r)
@@ -43,7 +44,7 @@ DELTAS = [0.5, -1.25, 2.0]
 
 
 def shards(tier, seed):
-    algs = ['pga2', 'pga3', 'vga2', 'vga3'] + (['vga1', 'vga4', 'mix3'] if tier == 'thorough' else [])
+    algs = ['pga2', 'pga3', 'vga2', 'vga3'] + (['vga4', 'mix3'] if tier == 'thorough' else [])
     sh = []
     sh.append(dict(stratum='algebra description (signature, key2idx, cayley) for signature orderings sharing (p,q,r), one process, two orders', alg='sig+-', kind='describe',
                    seq=['sig+-', 'sig-+', 'vga2', 'sig0++', 'sig++0', 'sig+0+', 'pga2', 'sig-+', 'sig+-', 'sig+0+', 'sig0++']))
@@ -58,7 +59,8 @@ def shards(tier, seed):
         if tier == 'quick':
             scenes += [list(p) for p in product(SUBMENU, repeat=3)]
         else:
-            scenes += [list(p) for p in product(MENU, repeat=3)] + [list(p) for p in product(SUBMENU[:6], repeat=4)]
+            MID = SUBMENU + ['str', 'mv:empty:list', 'mv:dense:f32arr', 'mv:arr2', 'mv:sparse:i32arr']
+            scenes += [list(p) for p in product(MID, repeat=3)] + [list(p) for p in product(SUBMENU[:6], repeat=4)]
         n = 16 if tier == 'quick' else 64
         for ch in chunks(scenes, n):
             sh.append(dict(stratum=f'scenes (subject trees) and drag sequences', alg=a, scenes=ch, depth=2 if tier == 'quick' else 3))
@@ -170,6 +172,13 @@ def close_widgets():
             w.close()
         except Exception:
             pass
+    try:
+        # anywidget connects one lambda per instance to the class-level file-contents signal of _esm (hot reload); nothing else
+        # uses that signal here, and the lambdas keep every widget alive
+        from kingdon.graph import GraphWidget
+        GraphWidget._esm.changed.disconnect()
+    except Exception:
+        pass
 
 
 def coeffs(mv):
@@ -429,6 +438,8 @@ def run_shard(shard):
         for wrap in wraps:
             case = {'alg': algname, 'leaves': leaves, 'wrap': wrap, 'depth': shard['depth']}
             depth = shard['depth'] + (1 if len(leaves) <= 1 and shard['depth'] < 3 else 0)
+            if shard['depth'] >= 3:          # thorough: depth 3 up to two leaves, 2 for three leaves, 1 for four
+                depth = {1: 3, 2: 3, 3: 2}.get(len(leaves), 1)
             if wrap in ('plain', 'rootcall'):
                 drag_bfs(res, algname, leaves, wrap, depth if wrap == 'plain' else 1, case)
             else:
